@@ -76,6 +76,9 @@ def run_call(o, n, o_none, n_none, opts, backend, tmp):
 
     kw = dict(with_unchanged=opts["unchanged"], hash_only=opts["hash_only"], meta_only=opts["meta_only"],
               shallow=opts["shallow"])
+    if opts.get("unknown"):
+        # every directory of these indexes can be listed: asking for "unknown" labels changes nothing
+        kw["with_unknown"] = True
     if opts.get("key", "none") == "cks":
         # the key the library's own push passes: the checksum field of the remote file system (here: etag)
         from functools import partial
@@ -124,7 +127,9 @@ def opt_sets():
         if key != "none" and mode == "hash":
             continue  # the key function is not consulted when only hashes are compared
         out.append({"unchanged": u, "hash_only": mode == "hash", "meta_only": mode == "meta", "shallow": sh, "renames": ren,
-                    "key": key})
+                    "key": key, "unknown": False})
+        if key == "none":
+            out.append({**out[-1], "unknown": True})
     return out
 
 
